@@ -107,6 +107,9 @@ gen_config(sim::Plan& p, sim::Rng& r, bool thorough)
   p.cfg["park_k"] = p.cfg["park_event"] == 4 ? r.range(1, 8) : r.range(1, 3);
   p.cfg["pct_sync"] = r.chance(0.5); // PCT: change points at runtime entries instead of memory accesses
   p.cfg["pct_d"] = p.cfg["pct_sync"] ? r.range(2, 4) : p.cfg["pct_d"];
+  // lazy scenario: re-arm the ring-difference tables (they are built in the constructor; a segment-range or ring-spacing
+  // change -- as the list-mode objective function and the scatter code make on their copies -- leaves them to the first use)
+  p.cfg["rearm"] = r.chance(0.6) ? r.range(1, 2) : 0;
 }
 
 inline sc::Params
@@ -326,6 +329,21 @@ scen_lazy(const sim::Plan& p, int threads, const sc::Params& sp)
   shared_ptr<Scanner> scn = vu::make_scanner(ndet, nrings, tof ? 3 : 0);
   shared_ptr<ProjDataInfo> pdi = vu::make_pdi(scn, 1, nrings - 1, ndet / 2, ndet / 2, false, tof ? 1 : 0);
   shared_ptr<ProjDataInfo> pdi_span = vu::make_pdi(scn, nrings >= 2 ? 3 : 1, nrings - 1, ndet / 2, ndet / 2, false, 0);
+  switch (p.c("rearm", 0))
+    {
+    case 1:
+      pdi->reduce_segment_range(pdi->get_min_segment_num(), pdi->get_max_segment_num());
+      pdi_span->reduce_segment_range(pdi_span->get_min_segment_num(), pdi_span->get_max_segment_num());
+      sim::probe("ring_diff_tables_left_to_first_use");
+      break;
+    case 2:
+      dynamic_cast<ProjDataInfoCylindrical&>(*pdi).set_ring_spacing(dynamic_cast<ProjDataInfoCylindrical&>(*pdi).get_ring_spacing());
+      dynamic_cast<ProjDataInfoCylindrical&>(*pdi_span).set_ring_spacing(dynamic_cast<ProjDataInfoCylindrical&>(*pdi_span).get_ring_spacing());
+      sim::probe("ring_diff_tables_left_to_first_use");
+      break;
+    default:
+      break;
+    }
   const ProjDataInfoCylindricalNoArcCorr& pc = dynamic_cast<const ProjDataInfoCylindricalNoArcCorr&>(*pdi);
   const ProjDataInfoCylindricalNoArcCorr& pspan = dynamic_cast<const ProjDataInfoCylindricalNoArcCorr&>(*pdi_span);
   const int n = (int)p.c("nreq", 40);
